@@ -805,6 +805,117 @@ func GenShapedStages(rt *rapid.T, db *logdb.DB) ([]refeval.Stage, string) {
 	return st, kind + "/" + sepKind + "/" + rw
 }
 
+// GenDropParenStages draws the class "drop x, then a label filter that mentions x only inside
+// a parenthesised term": [parser opener] [line filter] -> drop of 1-2 stored labels of a target
+// series -> a filter whose parenthesised sub-terms read dropped and kept (stored or extracted)
+// labels, chosen so that the stored value of x would decide the filter (x = "" is true only
+// after the drop, x = <stored value> only before). Returns the stages, the parenthesis styles
+// ({stage, style} for refeval.ParenFilterString) and a selector that admits the target.
+func GenDropParenStages(rt *rapid.T, db *logdb.DB, ms []refeval.Matcher) ([]refeval.Stage, [][2]int, []refeval.Matcher) {
+	d := collect(db)
+	if len(db.Series) == 0 {
+		return nil, nil, ms
+	}
+	// a target with at least two labels and samples, if any
+	ti := rapid.IntRange(0, len(db.Series)-1).Draw(rt, "dp-target")
+	for k := 0; k < len(db.Series); k++ {
+		c := db.Series[(ti+k)%len(db.Series)]
+		if len(c.Labels) >= 2 && len(c.Samples) > 0 {
+			ti = (ti + k) % len(db.Series)
+			break
+		}
+	}
+	t := db.Series[ti]
+	if len(t.Labels) < 2 {
+		return GenStages(rt, db, StageOpt{Max: 3}), nil, ms
+	}
+	xi := rapid.IntRange(0, len(t.Labels)-1).Draw(rt, "dp-x")
+	x := t.Labels[xi]
+	y := t.Labels[(xi+1+rapid.IntRange(0, len(t.Labels)-2).Draw(rt, "dp-y"))%len(t.Labels)]
+	// selector on the kept label so that the target (and its like) is selected
+	ms = []refeval.Matcher{{Name: y.Name, Op: rapid.SampledFrom([]string{"=", "=~"}).Draw(rt, "dp-mop"), Val: y.Value}}
+	if ms[0].Op == "=~" {
+		ms[0].Val = ".+"
+	}
+	var st []refeval.Stage
+	ext := ""
+	switch rapid.IntRange(0, 3).Draw(rt, "dp-open") {
+	case 0:
+		st = append(st, refeval.Stage{Kind: refeval.KJSON, Params: []refeval.Param{{Name: "w", Val: rapid.SampledFrom([]string{"a", "lvl", "v"}).Draw(rt, "dp-path")}}})
+		ext = "w"
+	case 1:
+		st = append(st, refeval.Stage{Kind: refeval.KRegexp, Val: `lvl=(?P<xl>\w+)`})
+		ext = "xl"
+	}
+	if rapid.IntRange(0, 3).Draw(rt, "dp-line") == 0 {
+		st = append(st, genLineFilter(rt, d))
+	}
+	drop := refeval.Stage{Kind: refeval.KDrop, Params: []refeval.Param{{Name: x.Name}}}
+	if rapid.IntRange(0, 2).Draw(rt, "dp-two") == 0 {
+		drop.Params = append(drop.Params, refeval.Param{Name: rapid.SampledFrom(append([]string{"zz"}, d.names...)).Draw(rt, "dp-x2")})
+	}
+	st = append(st, drop)
+	if rapid.IntRange(0, 4).Draw(rt, "dp-sep") == 0 {
+		st = append(st, genLineFilter(rt, d))
+	}
+	leaf := func(name, cmp, v string) *refeval.LabelFilter {
+		return &refeval.LabelFilter{Label: name, Cmp: cmp, Str: &v}
+	}
+	// terms on the dropped label whose truth differs before / after the drop
+	xTerm := func() *refeval.LabelFilter {
+		switch rapid.IntRange(0, 4).Draw(rt, "dp-xt") {
+		case 0, 1:
+			return leaf(x.Name, "=", "")
+		case 2:
+			return leaf(x.Name, "=", x.Value)
+		case 3:
+			return leaf(x.Name, "=~", ".+")
+		default:
+			return leaf(x.Name, "!=", x.Value)
+		}
+	}
+	// a term on a kept label: the stored y, or the extracted label
+	yTerm := func() *refeval.LabelFilter {
+		if ext != "" && rapid.IntRange(0, 2).Draw(rt, "dp-ext") == 0 {
+			return leaf(ext, rapid.SampledFrom([]string{"=~", "!="}).Draw(rt, "dp-eop"), rapid.SampledFrom([]string{".*", "zzz", "x"}).Draw(rt, "dp-ev"))
+		}
+		switch rapid.IntRange(0, 2).Draw(rt, "dp-yt") {
+		case 0:
+			return leaf(y.Name, "=", y.Value)
+		case 1:
+			return leaf(y.Name, "!=", y.Value)
+		default:
+			return leaf(y.Name, "=", "nope")
+		}
+	}
+	node := func(op string, l, r *refeval.LabelFilter) *refeval.LabelFilter {
+		return &refeval.LabelFilter{Bool: op, L: l, R: r}
+	}
+	bop := func(l string) string { return rapid.SampledFrom([]string{"and", "or"}).Draw(rt, l) }
+	var f *refeval.LabelFilter
+	var style int
+	switch rapid.IntRange(0, 5).Draw(rt, "dp-form") {
+	case 0: // (x... op y...)
+		f, style = node(bop("dp-b"), xTerm(), yTerm()), rapid.SampledFrom([]int{1, 3, 5, 7}).Draw(rt, "dp-style")
+	case 1: // y... op (x...)
+		f, style = node(bop("dp-b"), yTerm(), xTerm()), rapid.SampledFrom([]int{4, 2, 6, 5}).Draw(rt, "dp-style")
+	case 2: // y... op (x... op x...)
+		f, style = node(bop("dp-b"), yTerm(), node(bop("dp-b2"), xTerm(), xTerm())), rapid.SampledFrom([]int{0, 2, 1}).Draw(rt, "dp-style")
+	case 3: // y... op (x... op y...)   nested: ((x) op y)
+		f, style = node(bop("dp-b"), yTerm(), node(bop("dp-b2"), xTerm(), yTerm())), rapid.SampledFrom([]int{0, 2, 6}).Draw(rt, "dp-style")
+	case 4: // (x... op y...) op y...
+		f, style = node(bop("dp-b"), node(bop("dp-b2"), xTerm(), yTerm()), yTerm()), rapid.SampledFrom([]int{0, 2, 4}).Draw(rt, "dp-style")
+	default: // ((x...))
+		f, style = xTerm(), 3
+	}
+	paren := [][2]int{{len(st), style}}
+	st = append(st, refeval.Stage{Kind: refeval.KLabelFilter, Filter: f})
+	if rapid.IntRange(0, 3).Draw(rt, "dp-tail") == 0 {
+		st = append(st, refeval.Stage{Kind: refeval.KLabelFilter, Filter: yTerm()})
+	}
+	return st, paren, ms
+}
+
 // GenAbsentLabelFilter draws the class "label FILTER on a label some selected streams lack":
 // a selector on a label nearly every stream carries (positive, so no stream is selected by
 // the absence of a label), and a filter on a sparse label that is satisfied by the empty
